@@ -76,3 +76,137 @@ class BC__visit_context(Contract):
         g = ghost_key('gensym_fresh', 'NamedId', old.self.gensym._counter)
         return with_block(result, ghost('pytarget', stmt.target), ghost('pyexpr', stmt.ctx),
                           ghost('pyblock_len', stmt.body), ghost('idtext', g))
+
+
+# ---------------------------------------------------------------------------
+# P3b: emission of control flow and simple statements (semantics.rst S-If, S-While, S-For, S-Assign, S-Return):
+# each statement node becomes the Python statement of the same kind over the emitted codes of ITS OWN parts
+# (condition / branches / target / iterable, none swapped or dropped).  A block's emitted code is abstract: it is
+# identified by its length ghost('pyblock_len', block), an uninterpreted function of the block, so `body` built
+# from the wrong block (or from the right block with statements added or dropped) fails; a permutation of the
+# right block's statements would not (the elements are trusted to `_visit_block`).
+
+def block_is(seq, block):
+    return len(seq) == ghost('pyblock_len', block)
+
+
+class BC__visit_if1(Contract):
+    target = 'fpy2.interpret.byte:BytecodeCompiler._visit_if1'
+    params = {'self': 'BytecodeCompiler', 'stmt': 'If1Stmt', 'ctx': 'None'}
+    overrides = {'stmt.cond': 'Key[Expr]', 'stmt.body': 'Key[StmtBlock]'}
+    returns = 'Any'
+    properties = ['C04']
+    may_raise = ['NotImplementedError']
+
+    def post(self, stmt, result):
+        ok = cons_name(result) == 'If'
+        return {'is_if': ok,
+                'test': (result.test == ghost('pyexpr', stmt.cond)) if ok else False,
+                'then': block_is(result.body, stmt.body) if ok else False,
+                'no_else': (len(result.orelse) == 0) if ok else False}
+
+
+class BC__visit_if(Contract):
+    target = 'fpy2.interpret.byte:BytecodeCompiler._visit_if'
+    params = {'self': 'BytecodeCompiler', 'stmt': 'IfStmt', 'ctx': 'None'}
+    overrides = {'stmt.cond': 'Key[Expr]', 'stmt.ift': 'Key[StmtBlock]', 'stmt.iff': 'Key[StmtBlock]'}
+    returns = 'Any'
+    properties = ['C04']
+    may_raise = ['NotImplementedError']
+
+    def post(self, stmt, result):
+        ok = cons_name(result) == 'If'
+        return {'is_if': ok,
+                'test': (result.test == ghost('pyexpr', stmt.cond)) if ok else False,
+                'then': block_is(result.body, stmt.ift) if ok else False,
+                'else': block_is(result.orelse, stmt.iff) if ok else False}
+
+
+class BC__visit_while(Contract):
+    target = 'fpy2.interpret.byte:BytecodeCompiler._visit_while'
+    params = {'self': 'BytecodeCompiler', 'stmt': 'WhileStmt', 'ctx': 'None'}
+    overrides = {'stmt.cond': 'Key[Expr]', 'stmt.body': 'Key[StmtBlock]'}
+    returns = 'Any'
+    properties = ['C04']
+    may_raise = ['NotImplementedError']
+
+    def post(self, stmt, result):
+        ok = cons_name(result) == 'While'
+        return {'is_while': ok,
+                'test': (result.test == ghost('pyexpr', stmt.cond)) if ok else False,
+                'body': block_is(result.body, stmt.body) if ok else False,
+                'no_else': (len(result.orelse) == 0) if ok else False}
+
+
+class BC__visit_for(Contract):
+    target = 'fpy2.interpret.byte:BytecodeCompiler._visit_for'
+    params = {'self': 'BytecodeCompiler', 'stmt': 'ForStmt', 'ctx': 'None'}
+    overrides = {'stmt.target': 'Key[Id]', 'stmt.iterable': 'Key[Expr]', 'stmt.body': 'Key[StmtBlock]'}
+    returns = 'Any'
+    properties = ['C04']
+    may_raise = ['NotImplementedError']
+
+    def post(self, stmt, result):
+        ok = cons_name(result) == 'For'
+        return {'is_for': ok,
+                'target': (result.target == ghost('pytarget', stmt.target)) if ok else False,
+                'iter': (result.iter == ghost('pyexpr', stmt.iterable)) if ok else False,
+                'body': block_is(result.body, stmt.body) if ok else False,
+                'no_else': (len(result.orelse) == 0) if ok else False}
+
+
+class BC__visit_assign(Contract):
+    target = 'fpy2.interpret.byte:BytecodeCompiler._visit_assign'
+    params = {'self': 'BytecodeCompiler', 'stmt': 'Assign', 'ctx': 'None'}
+    overrides = {'stmt.target': 'Key[Id]', 'stmt.expr': 'Key[Expr]'}
+    returns = 'Any'
+    properties = ['C04']
+    may_raise = ['NotImplementedError']
+
+    def post(self, stmt, result):
+        ok = cons_name(result) == 'Assign'
+        return {'is_assign': ok,
+                'one_target': (len(result.targets) == 1 and result.targets[0] == ghost('pytarget', stmt.target)) if ok else False,
+                'value': (result.value == ghost('pyexpr', stmt.expr)) if ok else False}
+
+
+class BC__visit_return(Contract):
+    target = 'fpy2.interpret.byte:BytecodeCompiler._visit_return'
+    params = {'self': 'BytecodeCompiler', 'stmt': 'ReturnStmt', 'ctx': 'None'}
+    overrides = {'stmt.expr': 'Key[Expr]'}
+    returns = 'Any'
+    properties = ['C04']
+    may_raise = ['NotImplementedError']
+
+    def post(self, stmt, result):
+        ok = cons_name(result) == 'Return'
+        return {'is_return': ok, 'value': (result.value == ghost('pyexpr', stmt.expr)) if ok else False}
+
+
+class BC__visit_effect(Contract):
+    target = 'fpy2.interpret.byte:BytecodeCompiler._visit_effect'
+    params = {'self': 'BytecodeCompiler', 'stmt': 'EffectStmt', 'ctx': 'None'}
+    overrides = {'stmt.expr': 'Key[Expr]'}
+    returns = 'Any'
+    properties = ['C04']
+    may_raise = ['NotImplementedError']
+
+    def post(self, stmt, result):
+        ok = cons_name(result) == 'Expr'
+        return {'is_expr_stmt': ok, 'value': (result.value == ghost('pyexpr', stmt.expr)) if ok else False}
+
+
+class BC__visit_if_expr(Contract):
+    target = 'fpy2.interpret.byte:BytecodeCompiler._visit_if_expr'
+    params = {'self': 'BytecodeCompiler', 'e': 'IfExpr', 'ctx': 'None'}
+    overrides = {'e.cond': 'Key[Expr]', 'e.ift': 'Key[Expr]', 'e.iff': 'Key[Expr]'}
+    returns = 'Any'
+    properties = ['C04']
+    may_raise = ['NotImplementedError']
+
+    def post(self, e, result):
+        ok = cons_name(result) == 'IfExp'
+        return {'is_ifexp': ok,
+                'test': (result.test == ghost('pyexpr', e.cond)) if ok else False,
+                'then': (result.body == ghost('pyexpr', e.ift)) if ok else False,
+                'else': (result.orelse == ghost('pyexpr', e.iff)) if ok else False}
